@@ -233,6 +233,14 @@ func runImpl(eng Engine, c Case) []string {
 	case out := <-done:
 		return out
 	case <-time.After(60 * time.Second):
+	}
+	// not back after a minute: on a loaded machine that need not be a hang (a two-line case was once held up that long while
+	// four other builds ran: a false alarm). Give it four more minutes before calling it one.
+	select {
+	case out := <-done:
+		atomic.AddInt32(&slow, 1)
+		return out
+	case <-time.After(240 * time.Second):
 		atomic.AddInt32(&hangs, 1)
 		return []string{"hang"}
 	}
@@ -257,6 +265,9 @@ var lastPanic string
 
 // hangs counts operations that did not return within their watchdog's time.
 var hangs int32
+
+// slow counts cases that came back after the first minute of their watchdog (a loaded machine, not a hang).
+var slow int32
 
 func runModel(driver string, cases []Case) ([][]string, error) {
 	var in bytes.Buffer
